@@ -263,6 +263,148 @@ def normalise(events):
     return out
 
 
+def repo_test_traces(ctx, open_devs, by_dev):
+    """The other direction of the binding: run the REPOSITORY'S OWN tests of internal/endpoint/smtp, unchanged,
+    with the trace hooks compiled in (build tag verif; verif_trace.go / verif_trace_test.go) and validate the
+    recorded life of every Session object against Session.tla (SessionHookTrace.tla): the tests' own assertions
+    are whatever they are, the SessionObs predicates are evaluated at every step of what the tests made the
+    sessions do. A failing repository test is not a verdict of this check; its traces still count."""
+    if not os.path.exists(os.path.join(ctx.repo, "internal/endpoint/smtp/verif_trace.go")):
+        ctx.cov["repo_test_traces"] = {"skipped": {"the tree under test has no trace hooks (verif_trace.go)": 1}}
+        ctx.log("repository's own endpoint tests: no trace hooks in %s, part skipped" % ctx.repo)
+        return 0
+    d = ctx.sub("repotests")
+    raw = os.path.join(d, "raw.ndjson")
+    tmp = os.path.join(d, "tmp")
+    os.makedirs(tmp, exist_ok=True)
+    env = vlib.goenv()
+    env.update(VERIF_TRACE_OUT=raw, TMPDIR=tmp)
+    p = subprocess.run(["timeout", "600", "go", "test", "-tags", "verif", "-count=1", "-v", "./internal/endpoint/smtp/"],
+                       cwd=ctx.repo, env=env, stdout=subprocess.PIPE, stderr=subprocess.STDOUT, text=True)
+    if not os.path.exists(raw) or os.path.getsize(raw) == 0:
+        raise vlib.Infra("the repository's endpoint tests recorded nothing with the hooks on (rc=%d): %s" % (
+            p.returncode, p.stdout[-1500:]))
+    tests_run = sum(1 for l in p.stdout.splitlines() if l.startswith("=== RUN"))
+    tests_failed = sum(1 for l in p.stdout.splitlines() if l.startswith("--- FAIL"))
+    by_key = {}
+    n_events = 0
+    for line in open(raw):
+        e = json.loads(line)
+        by_key.setdefault(e["key"], []).append(e)
+        n_events += 1
+    events, info, skipped = [], {}, {}
+    opmap = {"PStart": "start", "PAddRcpt": "rcpt", "PBody": "body", "PBodyNA": "bodyNA", "PCommit": "commit",
+             "PAbort": "abort"}
+    no_calls = 0
+    for k, key in enumerate(sorted(by_key, key=lambda x: int(x[1:]))):
+        evs = sorted(by_key[key], key=lambda e: e["seq"])
+        cmds = [e for e in evs if e["e"] == "Cmd"]
+        reason = None
+        if evs[0]["e"] != "Sess":
+            reason = "no session start recorded"
+        elif evs[0]["lmtp"]:
+            reason = "LMTP session: per-recipient replies are not visible to the hooks"
+        elif len({e["defer"] for e in cmds}) > 1:
+            reason = "sender-reject mode changed during the session"
+        names, too_many = {}, False
+
+        def rid(a):
+            if a not in names:
+                names[a] = ["ra", "rb", "rc", "r4", "r5", "r6", "r7"][min(len(names), 6)]
+            return names[a]
+        t = 3000000 + k
+        out = [{"t": t, "seq": 0, "e": "Cfg", "lmtp": bool(evs[0].get("lmtp")),
+                "defer": cmds[0]["defer"] if cmds else True, "session": key}]
+        for e in evs[1:]:
+            n = {"t": t, "seq": e["seq"]}
+            if e["e"] == "Cmd":
+                if e["v"] == "RSET":
+                    n["e"] = "Reset"
+                    too_many = too_many or len(names) > 3
+                    names.clear()     # recipient identities are per transaction (SMTP)
+                elif e["v"] == "QUIT":
+                    n["e"] = "Logout"
+                else:
+                    n.update(e="Cmd", v=e["v"], a=e["cls"] if e["v"] != "DATA" else "ok",
+                             r=rid(e.get("clean", e["arg"])) if e["v"] == "RCPT" else "")
+            elif e["e"] in opmap:
+                st = {rid(r): v for r, v in (e.get("st") or {}).items()}
+                n.update(e="Tgt", tgt="T1", att=e["d"], op=opmap[e["e"]], r=rid(e["r"]) if "r" in e else "",
+                         res=e.get("res", ""), st=st, ts=e["ts"])
+            elif e["e"] == "Reply":
+                n.update(e="Reply", code=e["code"], i=1)
+            elif e["e"] == "End":
+                n.update(e="End", open=e["open"])
+            else:
+                reason = reason or "unknown hook event " + e["e"]
+                continue
+            out.append(n)
+        if too_many or len(names) > 3:
+            reason = reason or "more than 3 distinct recipients in one transaction"
+        if reason:
+            skipped[reason] = skipped.get(reason, 0) + 1
+            continue
+        if out[-1]["e"] != "End":
+            out.append({"t": t, "seq": out[-1]["seq"] + 1, "e": "Cut"})
+        if len(out) <= 2:
+            no_calls += 1
+        events += out
+        info[t] = {"session": key, "events": out}
+    if not events:
+        raise vlib.Infra("no usable trace from the repository's endpoint tests")
+    # binding self-test: a trace with one corrupted field must not be accepted
+    st_t = None
+    for t, i in info.items():
+        if any(e["e"] == "Tgt" and e["op"] == "commit" and e["res"] == "ok" for e in i["events"]):
+            bad = [dict(e, t=3900001) for e in i["events"]]
+            next(e for e in bad if e["e"] == "Tgt" and e["op"] == "commit")["res"] = "perm"
+            events += bad
+            st_t = 3900001
+            break
+    hcfg = cfg(["ra", "rb", "rc"], [1], ["temp", "perm"], 1000, 1000, devs=open_devs, tail=TRACE_TAIL, spec="TSpec",
+               holds=["FALSE"])
+    verdicts, by_t = ctx.validate("SessionHookTrace", None, events, name="repotests-trace", cfg_text=hcfg)
+    ok = drift = viol_n = 0
+    for t, recs in sorted(verdicts.items()):
+        viol = sorted(set(v for r in recs for v in r["viol"]))
+        conform = [r for r in recs if not r["drift"]]
+        if t == st_t:
+            if conform and not viol:
+                raise vlib.Infra("binding self-test failed: a corrupted repo-test trace was accepted")
+            continue
+        devs = sorted(set(dv for r in conform for dv in (r.get("devs") or [])))
+        if viol:
+            allowed = set()
+            for dv in devs:
+                for f in by_dev.get(dv, []):
+                    allowed |= set(f["match"].get("predicates", []))
+            if conform and devs and set(viol) <= allowed:
+                for dv in devs:
+                    for f in by_dev.get(dv, []):
+                        ctx.known(f["id"], f["what"])
+                ok += 1
+                continue
+            viol_n += 1
+            ctx.violation("the repository's own endpoint tests make session %s violate %s" % (
+                info[t]["session"], ",".join(viol)),
+                {"property": "C03", "repotest": info[t], "violated": viol,
+                 "how": "bin/check C03 --replay <this file> (re-runs the package's tests with the hooks on)"})
+        elif conform:
+            ok += 1
+        else:
+            drift += 1
+            print("DRIFT property=C03 repo-test session %s first-unexplained-seq=%s" % (
+                info[t]["session"], min(r["driftAt"] for r in recs)))
+    ctx.cov["repo_test_traces"] = {
+        "package": "internal/endpoint/smtp", "tests_run": tests_run, "tests_failed": tests_failed,
+        "go_test_rc": p.returncode, "sessions": len(by_key), "events": n_events, "validated": ok, "drift": drift,
+        "violating": viol_n, "skipped": skipped, "sessions_without_calls": no_calls,
+        "binding_selftest": "corrupted trace rejected" if st_t else "no committed transaction to corrupt"}
+    ctx.log("repository's own endpoint tests with hooks: %d tests, %d sessions, %d events; validated %d, drift %d, "
+            "skipped %d" % (tests_run, len(by_key), n_events, ok, drift, sum(skipped.values())))
+    return ok
+
+
 def run(ctx, replay):
     thorough = ctx.tier == "thorough"
     findings = load_findings()
@@ -276,6 +418,9 @@ def run(ctx, replay):
         raise vlib.Infra("known_findings names deviations Session.tla does not have: %s" % unknown)
 
     # ---- (T) exhaustive model checking + (B) behaviours out of TLC, run side by side ----
+    if replay and "repotest" in json.load(open(replay)):
+        repo_test_traces(ctx, open_devs, by_dev)
+        return
     small = dict(rcpts=["rb"], nts=[2], fails=["perm"], maxfaults=1, maxcmds=5, holds=["FALSE"])
 
     def job_mc():
@@ -346,11 +491,13 @@ def run(ctx, replay):
             f_spell = ex.submit(job_spell)
             f_asis = {dv: ex.submit(job_asis, dv) for dv in ALL_DEVS}
             f_sim = [ex.submit(job_sim, i, *a) for i, a in enumerate(sims)]
+            f_repo = ex.submit(repo_test_traces, ctx, open_devs, by_dev)   # cheap, independent of the rest
             r = f_mc.result()
             rl = f_live.result()
             asis = {dv: f.result() for dv, f in f_asis.items()}
             g = f_gen.result()
             gs = [f.result() for f in f_sim]
+            n_repo = f_repo.result()
             gf = f_focus.result()
             gc = f_core.result()
             gsp = f_spell.result()
@@ -486,6 +633,8 @@ def run(ctx, replay):
     if selftest:
         ctx.cov["binding_selftest"] = "corrupted-field and dropped-event traces rejected"
     ctx.cov["traces_validated_against_impl"] = ok
+    if not replay:
+        ctx.cov["traces_validated_against_impl"] += n_repo
     ctx.cov["traces_explained_by_known_deviations"] = known_n
     ctx.cov["drift_traces"] = drift
     ctx.cov["evaluations"] = len(behs)
